@@ -213,7 +213,7 @@ def run(ctx):
     from . import mine
     from pykdebugparser.pykdebugparser import PyKdebugParser as _P
     nscale = 0
-    hints = sorted({h for h in mine.size_hints(64, hi=(1 << 17)) if h >= 1024} | {h // 64 for h in mine.size_hints(1 << 16) if h % 64 == 0 and h // 64 >= 1024})
+    hints = sorted({h for h in mine.size_hints(64, hi=(1 << 18)) if h >= 1024} | {h // 64 for h in mine.size_hints(1 << 16) if h % 64 == 0 and h // 64 >= 1024})
     for h in hints[-3:] if ctx.quick else hints:
         n_ = h + h // 2 + 3
         rec0 = bytearray(kd_buf(1, tid=7, debugid=0x1234500, data=bytes(32)))
